@@ -46,8 +46,14 @@ ALGOS = {"PPO": _spy(PPO), "A2C": _spy(A2C), "REINFORCE": _spy(REINFORCE)}
 from ..classes import collect_on as classes  # noqa: E402,F401  (shape classes are plain data)
 
 
+def box_bounds(cls: dict):
+    """Bounds of a Box action space: two-sided [-1, 1] by default, one-sided when the class says so."""
+    return float(cls.get("box_low", -1.0)), float(cls.get("box_high", 1.0))
+
+
 def build_env(cls: dict, tables: dict, time_limit: int = 3):
-    env = SimMDP(cls["kind"], tuple(cls["dims"]), cls["obs_kind"], tables)
+    lo, hi = box_bounds(cls)
+    env = SimMDP(cls["kind"], tuple(cls["dims"]), cls["obs_kind"], tables, box_low=lo, box_high=hi)
     for w in cls["stack"]:
         if w == "TimeLimit":
             env = TimeLimit(env, time_limit)
@@ -258,7 +264,7 @@ class Runner:
         if self._want_log:
             cb.recorder.clear()
         self._cur_obs = np.asarray(plan["world"]["obs"])
-        mdp = RefMDP(self.kind, self.comps, plan["world"], time_limit=int(kn["time_limit"]) if self.has_tl else None)
+        mdp = RefMDP(self.kind, self.comps, plan["world"], *box_bounds(self.cls), time_limit=int(kn["time_limit"]) if self.has_tl else None)
         pol = RefTablePolicy(self.kind, self.comps, plan["policy"])
         gamma, lam, alpha = float(kn["gamma"]), float(kn["lam"]), float(kn["alpha"])
         faults = {f["at_op"]: f for f in plan.get("faults", [])}
